@@ -63,6 +63,7 @@ static std::vector<Plan> c01_fixed(int tier) {
         }
     }
     for (int variant = 1; variant <= 2; variant++) { for (int noems = 0; noems < 2; noems++) { Plan p; p.seed = 9900 + (uint64_t) (variant * 2 + noems); p.cfg["forge_limbo"] = variant; p.cfg["noems"] = noems; v.push_back(p); } }
+    for (int variant = 1; variant <= 2; variant++) { for (int su = 0; su < 3; su++) { for (int cb = 0; cb < 2; cb++) { Plan p; p.seed = 9800 + (uint64_t) (variant * 10 + su * 2 + cb); p.cfg["rogue_psk"] = variant; p.cfg["su"] = su; p.cfg["cb"] = cb ? CB_STRICT : CB_NONE; v.push_back(p); } } }
     // 0-RTT grid: (limit in the ticket) x (limit of the server session that receives the resumption) x early writes x TLS 1.3 suite
     static const int E[] = { 0, 1024, 16384 };
     for (int e1 = 0; e1 < 3; e1++) {
@@ -159,8 +160,69 @@ static RunResult c01_forge_exec(const Plan &p) {
     return res;
 }
 
+// A rogue TLS 1.3 server that holds no credential the client trusts and no PSK: it claims "pre_shared_key selected" (index 0) in its ServerHello
+// although the client offered none (variant 0) or offered a ticket this server cannot open (variant 1), skips Certificate/CertificateVerify and
+// keys its Finished from the all-zero PSK - everything it needs is public.  The client must not complete, deliver or encrypt.
+static RunResult c01_rogue_psk_exec(const Plan &p) {
+    RunResult res;
+    vsim_run_reset(p.seed);
+    sim_global_open();
+    int variant = (int) p.get("rogue_psk") - 1;
+    {
+        static const uint16_t S13[] = { TLS_AES_128_GCM_SHA256, TLS_AES_256_GCM_SHA384, TLS_CHACHA20_POLY1305_SHA256 };
+        PairCfg pc; pc.version = v_tls_1_3; pc.suites = { S13[(uint64_t) p.get("su") % 3] }; pc.server_identity = KK_EC256; pc.cb_c = (int) p.get("cb", CB_STRICT);
+        pc.tickets = variant == 1;
+        TlsWorld w; bool ok = w.setup(pc);
+        if (ok && variant == 1) {
+            // an honest first connection leaves a ticket with the client; the rogue then stands in for the server and cannot open it
+            ok = w.connect() && w.handshake();
+            if (ok) { Bytes a = tagged_payload(0, 1, 20); w.cli->app_send(a.data(), a.size()); w.pump(); w.cli->app_close(); w.pump(); }
+            w.close_sessions();
+            unsigned char name[16], sym[32], mac[32];
+            vsim_set_node(NODE_SERVER);
+            ticket_key_material(9, name, sym, mac); matrixSslLoadSessionTicketKeys(w.skeys, name, sym, 32, mac, 32);
+            ticket_key_material(1, name, sym, mac); matrixSslDeleteSessionTicketKey(w.skeys, name);
+            vsim_set_node(NODE_HARNESS);
+        }
+        if (!ok) { res.harness_error = true; res.detail = "rogue_psk setup"; }
+        else {
+            // the client of the attacked connection trusts another CA only: the rogue has no certificate it would accept
+            vsim_set_node(NODE_CLIENT);
+            KeySpec cks; cks.identity = KK_NONE; cks.ca_mask = 1u << KK_EC384;
+            sslKeys_t *ck = load_keys(cks);
+            vsim_set_node(NODE_HARNESS);
+            sslKeys_t *orig = w.ckeys; if (ck) { w.ckeys = ck; }
+            if (!ck || !w.connect()) { res.harness_error = true; res.detail = "rogue_psk connect"; }
+            else {
+                vsim_poke_tls13_using_psk((ssl_t *) w.srv->ssl);
+                w.handshake();
+                Bytes evil = { 'R', 'O', 'G', 'U', 'E', '-', 'D', 'A', 'T', 'A' };
+                if (w.srv->alive()) { w.srv->app_send(evil.data(), evil.size()); w.pump(); }
+                Bytes secret = tagged_payload(0, 7, 24);
+                int enc = w.cli->alive() ? w.cli->app_send(secret.data(), secret.size()) : -1;
+                w.pump();
+                std::string ctx = std::string("cli,tls1.3,rogue_server_claims_psk,") + (variant ? "ticket_offered" : "no_psk_offered");
+                bool completed = w.cli->alive() && w.cli->is_complete();
+                res.count(std::string("rogue_psk.") + (completed ? "client_completed" : "client_refused"));
+                if (!w.cli->delivered.empty()) { res.violate("appdata_not_from_peer", ctx, "a server without any trusted certificate or PSK (it claimed pre_shared_key and keyed from the public all-zero PSK) had " + std::to_string(w.cli->delivered[0].size()) + " bytes delivered to the client application"); }
+                else if (completed) { res.violate("completed_with_keyless_peer", ctx, "the client reported the handshake complete with a server that sent no Certificate and holds no PSK (selected_identity for a PSK the client never offered / the server cannot know)"); }
+                else if (enc >= 0 && !w.srv->delivered.empty()) { res.violate("encode_before_completion", ctx, "the client encrypted application data for the rogue server"); }
+                res.fingerprint = mix64(w.fingerprint(), (uint64_t) variant);
+                res.nontrivial = true;
+                w.close_sessions();
+            }
+            w.ckeys = orig;
+            if (ck) { vsim_set_node(NODE_CLIENT); matrixSslDeleteKeys(ck); vsim_set_node(NODE_HARNESS); }
+        }
+        w.teardown();
+    }
+    sim_global_close();
+    return res;
+}
+
 static RunResult c01_exec(const Plan &p) {
     if (p.get("forge_limbo")) { return c01_forge_exec(p); }
+    if (p.get("rogue_psk")) { return c01_rogue_psk_exec(p); }
     RunResult res;
     vsim_run_reset(p.seed);
     sim_global_open();
